@@ -1,5 +1,6 @@
 import AvoVerif.Drv.Common
 import AvoVerif.Model.RegHW
+import AvoVerif.Model.RegCtx
 import AvoVerif.Gen.Regs
 import AvoVerif.Oracle.RegHW
 /-
@@ -7,7 +8,8 @@ C20 driver: exact model answers for the register API (table rows,
 conversions, lookups, ids, specs, collections, classification) and acceptors
 that evaluate the declarative clauses of the property (`RegOK`, `IdentOK`,
 `AsOK`, `VAsOK`, `VNewOK`, `VarOK`, `JunkLookupOK`, `AllocFailOK`, `FreshOK`,
-`ClassOK` of Model/RegHW.lean — the statements proved in Props/C20.lean) on the
+`ClassOK` of Model/RegHW.lean, `CtxFreshOK` of Model/RegCtx.lean — the statements proved in Props/C20.lean and
+Props/C20Ctx.lean) on the
 implementation's outputs.  Every acceptor is `decide` of the declarative
 statement itself (soundness is `of_decide_eq_true`); the `explain…` functions
 only name the first failing clause and answer `ok` iff the statement holds.
@@ -160,6 +162,25 @@ def acceptFresh (k i j idi idj : Nat) : String := verdict (decide (FreshOK k i j
 def acceptClass (g : List HWRow) (bits : List Bool) : String := verdict (decide (ClassOK g bits)) "bad-classification"
 def acceptVClass (kind mask : Nat) (bits : List Bool) : String :=
   verdict (decide (VClassOK kind mask bits)) "bad-classification"
+def acceptCtxFresh (k nreq : Nat) (ids : List Nat) : String :=
+  verdict (decide (CtxFreshOK k nreq ids)) "bad-context-collision"
+
+/-- One call of a Context history, `<route>:<name>[:<arg>…]` (route `m` = method of the Context, `g` = package-level
+function of `build` on the global context — the model does not care).  A register constructor is a request; every
+name the model does not know as one is `other`. -/
+def parseCtxOp (t : String) : Option CtxOp :=
+  match t.splitOn ":" with
+  | _route :: name :: args =>
+    match ctorKindSpec name, args with
+    | some (k, s), [] => some (.alloc k s)
+    | _, _ =>
+      match name, args with
+      | "VirtualRegister", [k, s] => do some (.alloc (← k.toNat?) (← s.toNat?))
+      | "GP", [s] => do some (.alloc kindGP (← s.toNat?))
+      | "Vec", [s] => do some (.alloc kindVector (← s.toNat?))
+      | "Dereference", [_i, seen] => some (.deref (seen == "1"))
+      | _, _ => some (.other name)
+  | _ => none
 
 /-- a lookup response `nil` | `name:kind:idx:mask:size:id` (the fields the statements use) -/
 def parseLookup (res : String) : Option (Option RegRow) :=
@@ -279,12 +300,23 @@ def handle : Handler
     -- judged by accept-vnew (F21), its classification only by the exact `vas` / `vnew` comparison.)
     let k ← kind.toNat?
     some (acceptVClass k m (parseBits bits))
+  | "ctxh" :: _n :: toks => do
+    -- a history of calls on one build.Context: the registers the caller gets to see, up to the numbering policy
+    let ops ← toks.mapM parseCtxOp
+    let seen := ((ctxRun {} ops).filter (·.seen)).map (·.reg)
+    some (joinSp (s!"n={seen.length}" :: ranks seen))
+  | "accept-ctxfresh" :: k :: nreq :: m :: rest => do
+    -- the ids the implementation handed out for kind k along one Context history (the history follows, for replay)
+    let m ← m.toNat?
+    let ids ← (rest.take m).mapM String.toNat?
+    if ids.length != m then none else
+    some (acceptCtxFresh (← k.toNat?) (← nreq.toNat?) ids)
   | _ => none
 
 def handlers : List (String × Handler) :=
   ["row", "pas", "vas", "coll", "collrun", "lookupid", "lookupphys", "id", "spec", "accept-reg", "accept-ident", "accept-as",
    "accept-lookup", "accept-lookup-virtual", "accept-vas", "accept-ctor", "accept-fresh", "accept-class", "accept-vclass",
    "vnew", "accept-vnew", "vlook", "accept-vlook", "accept-lookup-junk", "accept-alloc-fail", "accept-var",
-   "accept-vlookdflt"].map (·, handle)
+   "accept-vlookdflt", "ctxh", "accept-ctxfresh"].map (·, handle)
 
 end Avo.Drv.C20
